@@ -25,6 +25,12 @@ type c18Conf struct {
 
 func (c c18Conf) yaml() string { return ref.YAML(c.Base, c.Def, c.Sets) }
 
+// c18Answered counts the requests the background clients got answered (set by the reload test).
+var c18Answered *int64
+
+// c18Lost is set when a reload signal was followed by hundreds of answered requests but no reload.
+var c18Lost bool
+
 func c18Reload(cfgPath, content string) bool {
 	os.WriteFile(cfgPath, []byte(content), 0600) //nolint:errcheck
 	n0 := 0
@@ -33,7 +39,12 @@ func c18Reload(cfgPath, content string) bool {
 			n0++
 		}
 	}
+	var a0 int64
+	if c18Answered != nil {
+		a0 = atomic.LoadInt64(c18Answered)
+	}
 	syscall.Kill(os.Getpid(), syscall.SIGHUP) //nolint:errcheck
+	c18Lost = false
 	return c19Wait(20*time.Second, func(ev []verifEvt) bool {
 		n := 0
 		for _, e := range ev {
@@ -41,8 +52,16 @@ func c18Reload(cfgPath, content string) bool {
 				n++
 			}
 		}
-		return n > n0
-	})
+		if n > n0 {
+			return true
+		}
+		// the dispatcher has gone through its select hundreds of times with the signal pending (Go picks among ready
+		// cases at random, so a pending signal is taken with overwhelming probability): the signal is lost, not late
+		if c18Answered != nil && atomic.LoadInt64(c18Answered)-a0 >= 400 {
+			c18Lost = true
+		}
+		return c18Lost
+	}) && !c18Lost
 }
 
 // c18Which determines from observable behaviour which configuration the agent is serving:
@@ -92,8 +111,13 @@ func c18Which(R *vr.Result, id string, iface *Store, confs []c18Conf, n *int) (n
 	return "mixture", f
 }
 
-func TestVerifC18Reload(t *testing.T) {
-	R := vr.New("C18", "reload", "an in-process agent receives SIGHUP after its configuration file was replaced by (a) a good configuration with different base directory, default and HMAC keys, (b) documents that do not load (syntax error, unknown key, undefined default, two algorithms, id 0), (c) configurations whose directory fails the consistency check (empty, no admin, both extensions, foreign file, same base directory but the admin's parameter set removed), (d) a good configuration that drops a parameter set; after each reload the configuration actually served is identified from behaviour (where a newly added record lands, which default it names, which HMAC key verifies it; which users authenticate) and must be the complete new one after a good reload and the complete previous one otherwise - never a mixture; the store path handed to the update hooks (hook event and the WHAWTY_AUTH_STORE seen by a real hook script) must never be a directory of a rejected reload; background clients run through all reloads and every request must be answered. Non-trivial: every reload; distinct by (previous configuration, reload kind)")
+func TestVerifC18Reload(t *testing.T) { c18ReloadBody("reload", true) }
+
+// the same with update hooks disabled (the default): the agent's hook goroutine then only drains its channels
+func TestVerifC18ReloadNoHooks(t *testing.T) { c18ReloadBody("reload-nohooks", false) }
+
+func c18ReloadBody(stage string, withHooks bool) {
+	R := vr.New("C18", stage, "an in-process agent (update hooks "+map[bool]string{true: "configured", false: "not configured"}[withHooks]+") receives SIGHUP after its configuration file was replaced by (a) a good configuration with different base directory, default and HMAC keys, (b) documents that do not load (syntax error, unknown key, undefined default, two algorithms, id 0), (c) configurations whose directory fails the consistency check (empty, no admin, both extensions, foreign file, same base directory but the admin's parameter set removed), (d) a good configuration that drops a parameter set; after each reload the configuration actually served is identified from behaviour (where a newly added record lands, which default it names, which HMAC key verifies it; which users authenticate) and must be the complete new one after a good reload and the complete previous one otherwise - never a mixture; the store path handed to the update hooks (hook event and the WHAWTY_AUTH_STORE seen by a real hook script) must never be a directory of a rejected reload; background clients run through all reloads and every request must be answered. Non-trivial: every reload; distinct by (previous configuration, reload kind)")
 	defer R.Write()
 	rng := R.Rand("c18r")
 	verifSetLogging(true)
@@ -104,7 +128,8 @@ func TestVerifC18Reload(t *testing.T) {
 		for i := range k1 {
 			k1[i], k2[i] = tag, tag+1
 		}
-		return []ref.ParamSet{{ID: 1, Algo: ref.AlgoScrypt, HmacKey: k1, Cost: 2, R: 1, P: 1}, {ID: 2, Algo: ref.AlgoScrypt, HmacKey: k2, Cost: 3, R: 2, P: 1}, {ID: 3, Algo: ref.AlgoArgon, Time: 1, Memory: 8, Threads: 1, Length: 16 + uint32(tag%2)*16}}
+		return []ref.ParamSet{{ID: 1, Algo: ref.AlgoScrypt, HmacKey: k1, Cost: 2, R: 1, P: 1}, {ID: 2, Algo: ref.AlgoScrypt, HmacKey: k2, Cost: 3, R: 2, P: 1}, {ID: 3, Algo: ref.AlgoArgon, Time: 1, Memory: 8, Threads: 1, Length: 16 + uint32(tag%2)*16},
+			{ID: 7, Algo: ref.AlgoScrypt, HmacKey: k1, Cost: 14, R: 8, P: 1}} // ~50 ms per verification: keeps the dispatcher busy
 	}
 	A := c18Conf{Name: "A", Base: filepath.Join(root, "A"), Def: 1, Sets: mkSets(0x10)}
 	B := c18Conf{Name: "B", Base: filepath.Join(root, "B"), Def: 2, Sets: mkSets(0x60)}
@@ -117,13 +142,16 @@ func TestVerifC18Reload(t *testing.T) {
 			st.Plant(rng, u)
 		}
 	}
-	plant(A, []ovlUser{{Name: "root", Pw: "rootA", Admin: true, Set: 1}, {Name: "onlyA", Pw: "pwA", Set: 1}, {Name: "mix", Pw: "mixA", Set: 1}, {Name: "a3", Pw: "a3pw", Set: 3}})
-	plant(B, []ovlUser{{Name: "root", Pw: "rootB", Admin: true, Set: 2}, {Name: "onlyB", Pw: "pwB", Set: 2}, {Name: "mix", Pw: "mixB", Set: 1}, {Name: "b3", Pw: "b3pw", Set: 3}})
+	plant(A, []ovlUser{{Name: "root", Pw: "rootA", Admin: true, Set: 1}, {Name: "onlyA", Pw: "pwA", Set: 1}, {Name: "mix", Pw: "mixA", Set: 1}, {Name: "a3", Pw: "a3pw", Set: 3}, {Name: "slow", Pw: "slowpw", Set: 7}})
+	plant(B, []ovlUser{{Name: "root", Pw: "rootB", Admin: true, Set: 2}, {Name: "onlyB", Pw: "pwB", Set: 2}, {Name: "mix", Pw: "mixB", Set: 1}, {Name: "b3", Pw: "b3pw", Set: 3}, {Name: "slow", Pw: "slowpw", Set: 7}})
 	os.WriteFile(cfg, []byte(A.yaml()), 0600) //nolint:errcheck
 	hooksDir := filepath.Join(root, "hooks")
 	hooksLog := filepath.Join(root, "hooks.log")
 	os.MkdirAll(hooksDir, 0700) //nolint:errcheck
 	c19Script(hooksDir, "rec", hooksLog, 0700, "")
+	if !withHooks {
+		hooksDir = ""
+	}
 	ag, err := NewStore(cfg, "", "", "", hooksDir)
 	if err != nil {
 		R.Fatal = err.Error()
@@ -163,6 +191,25 @@ func TestVerifC18Reload(t *testing.T) {
 	var stop int32
 	var answered, bgErrors int64
 	var wg sync.WaitGroup
+	c18Answered = &answered
+	var reported int32
+	reportWedge := func() {
+		if n := atomic.LoadInt64(&bgErrors); n > 0 && atomic.CompareAndSwapInt32(&reported, 0, 1) {
+			desc, blocked, where, raw := ovlDispatcherState(ovlDump(), 0)
+			R.Violate("c18:request-unanswered-during-reload", fmt.Sprintf("%d background requests got no answer within 30 s (dispatcher %s blocked=%v at %s)", n, desc, blocked, where), "background", raw)
+		}
+	}
+	// the test's own calls go through the same dispatcher: if it is wedged they never return, so a guard ends the stage
+	go func() {
+		for atomic.LoadInt32(&stop) == 0 {
+			time.Sleep(500 * time.Millisecond)
+			if atomic.LoadInt64(&bgErrors) > 0 {
+				reportWedge()
+				R.Write()
+				os.Exit(0)
+			}
+		}
+	}()
 	for c := 0; c < 4; c++ {
 		wg.Add(1)
 		go func(c int) {
@@ -217,6 +264,13 @@ func TestVerifC18Reload(t *testing.T) {
 			}
 		}
 	}
+	noReload := func(id, kind string) {
+		if c18Lost {
+			R.Violate("c18:reload:signal-lost:"+strings.SplitN(kind, ":", 2)[0], "a reload signal was followed by more than 400 answered requests but the agent never reloaded its configuration ("+kind+")", id, nil)
+		} else {
+			R.Inconcl("reload event not seen: " + id)
+		}
+	}
 	rounds := vr.Pick(2, 12)
 	for r := 0; r < rounds; r++ {
 		other := B
@@ -235,7 +289,7 @@ func TestVerifC18Reload(t *testing.T) {
 			id := fmt.Sprintf("r%d/bad-config/%s", r, b.kind)
 			R.Mark(id)
 			if !c18Reload(cfg, b.yaml) {
-				R.Inconcl("reload event not seen")
+				noReload(id, "config-does-not-load:"+b.kind)
 				continue
 			}
 			expectState(id, current, "config-does-not-load:"+b.kind)
@@ -274,7 +328,7 @@ func TestVerifC18Reload(t *testing.T) {
 			c := other
 			c.Base = d
 			if !c18Reload(cfg, c.yaml()) {
-				R.Inconcl("reload event not seen")
+				noReload(id, "directory-fails-check:"+bd.kind)
 				continue
 			}
 			expectState(id, current, "directory-fails-check:"+bd.kind)
@@ -326,13 +380,42 @@ func TestVerifC18Reload(t *testing.T) {
 		id := fmt.Sprintf("r%d/good/%s-to-%s", r, current.Name, other.Name)
 		R.Mark(id)
 		if !c18Reload(cfg, other.yaml()) {
-			R.Inconcl("reload event not seen")
+			noReload(id, "good")
 			continue
 		}
 		prev := current
 		current = other
 		expectState(id, other, "good:"+prev.Name+"-to-"+other.Name)
 		current = other
+	}
+	// one signal while the dispatcher is busy with slow logins and more are queued; nothing else tells the agent to reload
+	{
+		other := B
+		if current.Name == "B" {
+			other = A
+		}
+		id := "busy-signal"
+		R.Mark(id)
+		var bw sync.WaitGroup
+		for g := 0; g < 6; g++ {
+			bw.Add(1)
+			go func() {
+				defer bw.Done()
+				for k := 0; k < 3; k++ {
+					iface.Authenticate("slow", "slowpw") //nolint:errcheck
+				}
+			}()
+		}
+		time.Sleep(120 * time.Millisecond)
+		ok := c18Reload(cfg, other.yaml())
+		bw.Wait()
+		if !ok {
+			noReload(id, "good:signal-while-busy")
+		} else {
+			prev := current
+			current = other
+			expectState(id, other, "good:signal-while-busy:"+prev.Name+"-to-"+other.Name)
+		}
 	}
 	// a burst of signals at random points of the request stream
 	nb := vr.Pick(10, 50)
@@ -350,10 +433,7 @@ func TestVerifC18Reload(t *testing.T) {
 	time.Sleep(200 * time.Millisecond)
 	checkHooks("final", true)
 	R.Count("background_requests_answered", int(atomic.LoadInt64(&answered)))
-	if n := atomic.LoadInt64(&bgErrors); n > 0 {
-		desc, blocked, where, raw := ovlDispatcherState(ovlDump(), 0)
-		R.Violate("c18:request-unanswered-during-reload", fmt.Sprintf("%d background requests got no answer within 30 s (dispatcher %s blocked=%v at %s)", n, desc, blocked, where), "background", raw)
-	}
+	reportWedge()
 	R.Sample(map[string]any{"configurations": "A: base A, default 1, keys 0x10..; B: base B, default 2, keys 0x60..", "reloads": R.Get("reloads"), "background_requests_answered": answered})
 }
 
